@@ -409,3 +409,15 @@ func replay(raw stdjson.RawMessage) (bool, string) {
 	v := lib.Validate(s, ex)
 	return !v.OK, fmt.Sprintf("%s: example %s -> %s", c.Describe(), ex, v)
 }
+
+// ForEachSchema enumerates every slot (good example) in every context.
+func ForEachSchema(f func(sc.Case)) {
+	for _, s := range slots() {
+		for _, cx := range contexts() {
+			c, _, _, ok := build(caseT{s.Name, cx.Name, -1})
+			if ok {
+				f(c)
+			}
+		}
+	}
+}
